@@ -37,7 +37,7 @@ import (
 	"strings"
 )
 
-func init() { extraSections = append(extraSections, factsLocks) }
+func init() { extraSections = append(extraSections, section{"locks", factsLocks}) }
 
 // ---- expectations: which structs are tracked -------------------------------------
 
